@@ -31,7 +31,8 @@ Require Import Base Sched.
 Record inview := mkIv { v_valid : bool; v_mod : bool; v_val : Z }.
 
 Record body := mkBody {
-  b_sos  : bool;                                    (* start hook does sched.schedule(now) *)
+  b_sos  : bool;                                    (* start hook does sched.schedule(now + b_sd) *)
+  b_sd   : Z;                                       (* 0: arm for the start cycle itself; > 0: a later timer *)
   b_step : Z -> bool -> list inview -> Z * option Z * option Z }.
 
 Record branch := mkBr { br_usekey : bool; br_body : body }.
@@ -127,7 +128,7 @@ Definition select_branch (sp : swspec) (k : Z) : option branch :=
 (* start hook; returns the graph push of NodeScheduler::schedule *)
 Definition inst_start (t : Z) (i : inst) : inst * option Z :=
   if b_sos (br_body (i_br i)) then
-    let '(s', push) := schedule t false t 0 (i_sch i) in
+    let '(s', push) := schedule t false (t + b_sd (br_body (i_br i))) 0 (i_sch i) in
     (mkInst (i_br i) (i_id i) (i_state i) s' (i_samp i), push)
   else (i, None).
 
@@ -574,9 +575,10 @@ Definition finish (m : mst) : mst :=
 Record bparams := mkBP {
   p_sos : bool; p_etick : bool; p_ewake : bool; p_rtick : bool; p_rwake : bool;
   p_d : Z; p_c : Z; p_m : Z; p_l : Z; p_acc : Z; p_cnt : Z; p_wk : Z;
-  p_erun : bool }.                   (* emit on every run of the user code, whatever caused it *)
+  p_erun : bool;                     (* emit on every run of the user code, whatever caused it *)
+  p_sd : Z }.                        (* delay of the timer armed in the start hook (when p_sos) *)
 
-Definition dflt_bp : bparams := mkBP false true false false false 1 0 0 1 0 0 0 false.
+Definition dflt_bp : bparams := mkBP false true false false false 1 0 0 1 0 0 0 false 0.
 
 Definition table_step (p : bparams) (st : Z) (woke : bool) (ivs : list inview) : Z * option Z * option Z :=
   let ticked := existsb (fun v => v_valid v && v_mod v) ivs in
@@ -588,7 +590,7 @@ Definition table_step (p : bparams) (st : Z) (woke : bool) (ivs : list inview) :
    if p_erun p || (ticked && p_etick p) || (woke && p_ewake p) then Some (p_c p + p_m p * s2 + p_l p * sum_valid) else None,
    if (ticked && p_rtick p) || (woke && p_rwake p) then Some (p_d p) else None).
 
-Definition table_body (p : bparams) : body := mkBody (p_sos p) (table_step p).
+Definition table_body (p : bparams) : body := mkBody (p_sos p) (p_sd p) (table_step p).
 
 Definition NSLOT : Z := 6.
 
@@ -617,7 +619,8 @@ Definition decode_line (d : dcase) (l : line) : dcase :=
       if (0 <=? sl) && (sl <? NSLOT) then
         mkD (d_start d) (d_end d) (d_nts d) (d_reload d) (d_ents d) (d_dflt d)
             (set_nth (Z.to_nat sl) (mkBP (z2b sos) (z2b et) (z2b ew) (z2b rt) (z2b rw) dd c mm ll acc cnt wk
-                                       (match rest with e :: _ => z2b e | [] => false end)) (d_tab d))
+                                       (match rest with e :: _ => z2b e | [] => false end)
+                                       (match rest with _ :: sd :: _ => sd | _ => 0 end)) (d_tab d))
             (d_hist d) (d_shape d) (d_depth d)
       else d
   | 6 :: k :: t :: v :: _ =>
